@@ -529,7 +529,55 @@ fn part_inputs(ctx: &Ctx, sink: &mut Sink) {
     }
 }
 
+/// (9) observe / act / observe: evaluating an expression (the action) has no effect on what another expression (the
+/// observation) evaluates to in the same session. The actions handle values the observation depends on - functions held in
+/// lists / records / returned by calls bound to do-block locals, lists handed to sorting and reversing built-ins, records
+/// spread and indexed - under local names that the observed function mentions.
+fn part_effects(ctx: &Ctx, sink: &mut Sink) {
+    if ctx.shard_i != 0 {
+        return;
+    }
+    let setups: [(&[&str], &str); 6] = [
+        (&["fs = [n => if n <= 0 then 0 else g(n - 1) + 1]", "g = n => 100"], "fs[0](3)"),
+        (&["r = {f: n => if n <= 0 then 0 else g(n - 1) + 1}", "g = n => 100"], "r.f(3)"),
+        (&["mk = () => (n => if n <= 0 then 0 else g(n - 1) + 1)", "h = mk()", "g = n => 100"], "h(3)"),
+        (&["fs = [x => g]", "g = 5"], "fs[0](1)"),
+        (&["xs = [3, 1, 2]", "g = 7"], "[xs, sort(xs), g]"),
+        (&["fs = [(a, b?) => [a, b, g]]", "g = 1"], "fs[0](1)"),
+    ];
+    let actions = [
+        "do {\n g = fs[0]\n return g(0)\n}", "do {\n g = r.f\n return g(0)\n}", "do {\n g = mk()\n return g(0)\n}", "do {\n g = h\n return g(0)\n}",
+        "do {\n g = if true then fs[0] else 0\n return 1\n}", "do {\n g = [fs[0]][0]\n return 1\n}", "do {\n g = (q => q)(fs[0])\n return 1\n}", "(g => g(0))(fs[0])",
+        "[fs[0]] via (g => 1)", "do {\n g = reverse(xs)\n return sort(g)\n}", "do {\n xs = sort(xs)\n return xs\n}", "do {\n g = {...r}\n return g.f(0)\n}",
+        "do {\n g = fs\n return g[0](0)\n}", "do {\n t = fs[0]\n g = t\n return g(0)\n}",
+    ];
+    for (si, (setup, obs)) in setups.iter().enumerate() {
+        for (ai, act) in actions.iter().enumerate() {
+            let sess = Sess::new();
+            for st in setup.iter() {
+                let _ = sess.eval(st);
+            }
+            let before = sess.rout(&sess.eval(obs));
+            let acted = sess.rout(&sess.eval(act));
+            let after = sess.rout(&sess.eval(obs));
+            // the action once more, and the observation once more
+            let _ = sess.eval(act);
+            let later = sess.rout(&sess.eval(obs));
+            sink.case(&format!("c02e|{}|{}", si, ai), matches!(before, ROut::Ok(_)) && matches!(acted, ROut::Ok(_)));
+            sink.count("observe_act_observe", 1);
+            if !before.agrees(&after) || !before.agrees(&later) {
+                sink.viol(
+                    "evaluation-has-an-effect observe-act-observe",
+                    "evaluating one expression changed what another expression evaluates to",
+                    json!({"setup": setup, "observation": obs, "action": act, "before": before.show(), "after": after.show(), "after_second_action": later.show(), "action_result": acted.show()}),
+                );
+            }
+        }
+    }
+}
+
 pub fn run(ctx: &Ctx, sink: &mut Sink) {
+    part_effects(ctx, sink);
     part_inputs(ctx, sink);
     part_directed(ctx, sink);
     part_scalar_literals(ctx, sink);
